@@ -89,6 +89,9 @@ private:
     using sum_node_type = sum_node<Range, Body>;
     Body m_body;
     aligned_space<Range> m_range;
+    //! True once finish_construction() has constructed m_range.
+    /** A final_sum that only served as the body of a stolen subrange (a zombie) never gets a range. **/
+    bool m_range_constructed = false;
     //! Where to put result of last subrange, or nullptr if not last subrange.
     Body* m_stuff_last;
 
@@ -107,12 +110,15 @@ public:
     }
 
     ~final_sum() {
-        m_range.begin()->~Range();
+        if (m_range_constructed) {
+            m_range.begin()->~Range();
+        }
     }
     void finish_construction( sum_node_type* parent, const Range& range, Body* stuff_last ) {
         __TBB_ASSERT( m_parent == nullptr, nullptr );
         m_parent = parent;
         new( m_range.begin() ) Range(range);
+        m_range_constructed = true;
         m_stuff_last = stuff_last;
     }
 private:
